@@ -146,6 +146,11 @@ class Runner:
         if isinstance(v, BaseException): return 's*'
         return '?' + type(v).__name__
 
+    def fmt_cause(self, c):
+        if isinstance(c, Preempted):
+            return f'Preempted(resource={self.res.index(c.resource) if c.resource in self.res else "?"})'
+        return repr(c)
+
     def fmt_exc(self, x):
         return type(x).__name__ + ' ' + ' '.join(self.fmt_val(a) for a in x.args)
 
@@ -277,11 +282,14 @@ class Runner:
         env, slots = self.env, self.slots
         prog = self.case.progs[pidx] if pidx < len(self.case.progs) else []
         pc = 0
+        inflight = None          # the exception that is unwinding the with-blocks whose `exit` instructions come next (see 'exit')
         self.log(name, 'start', None)
         self.hook('started', me[0], name)
         while pc < len(prog):
             ins = prog[pc]; pc += 1
             op = ins[0]
+            if op != 'exit':
+                inflight = None      # the handler that encloses the with-blocks has caught it
             try:
                 if op == 'timeout':
                     slots[ins[1]] = self.new(env.timeout(ins[2], ins[3]))
@@ -383,13 +391,22 @@ class Runner:
                     ev = slots.get(ins[1])
                     if ev is not None:
                         self.note_users(('sync',))
+                        # `with resource.request() as req: ...` left normally, or - when an exception arrived at a yield inside the
+                        # block and its handler (10+k: jump) sits OUTSIDE the block(s) - unwound by that exception: the context
+                        # manager protocol then hands the exception triple to __exit__ of every block it passes through, innermost
+                        # first.  Either way the slot is given back (model: exit = cancel + release)
+                        triple = (None, None, None) if inflight is None else (type(inflight), inflight, inflight.__traceback__)
+                        if inflight is not None:
+                            self.notes.append(('exit-unwinding', type(inflight).__name__, type(getattr(inflight, 'cause', None)).__name__))
                         try:
-                            ev.__exit__(None, None, None)   # may raise (double cancel) before it releases
+                            ev.__exit__(*triple)            # may raise (double cancel) before it releases
                         finally:
                             self.note_users(('exit', self.lab(ev)))
                         self.nlabel += 1                # the Release it created is a program-level event of the model too
                         if ev in self.res[ins[2]].users or ev in self.res[ins[2]].queue:
-                            self.notes.append(('leaked', self.lab(ev), ins[2], env.now))
+                            how = '' if inflight is None else (f' (the block was left by {type(inflight).__name__}' + (f' with cause {self.fmt_cause(inflight.cause)}' if isinstance(inflight, Interrupt) else '')
+                                                               + ', handled outside the block)')
+                            self.notes.append(('leaked', self.lab(ev), ins[2], env.now, how))
                 elif op == 'cput':
                     slots[ins[1]] = self.track_req(ins[2], 'put', self.new(self.res[ins[2]].put(ins[3])))
                 elif op == 'cget':
@@ -406,6 +423,11 @@ class Runner:
                         self.notes.append(('got-now', self.case.res[ins[2]][0], before, g.value, ins[3], env.now))
                 elif op == 'ret':
                     return ins[1]
+                elif op == 'retev':
+                    # the generator returns the event OBJECT a slot holds (the handle of a process it started, of a finished process,
+                    # of itself; a shared event, a timeout, a condition) - a return value like any other; None if the slot is empty
+                    self.notes.append(('retev', type(slots.get(ins[1])).__name__))
+                    return slots.get(ins[1])
                 elif op == 'raise':
                     raise_it = EXC[ins[1]](ins[2])
                     raise _UserRaise(raise_it)
@@ -434,7 +456,9 @@ class Runner:
                             h = 0; ev = slots.get(ins[1]); continue
                         if h == 2: return 0
                         if h == 3: raise
-                        if h >= 10: pc += h - 10
+                        if h >= 10:
+                            pc += h - 10
+                            inflight = x     # in flight until the first instruction that is not an `exit`
                         break
         return None
 
